@@ -17,14 +17,14 @@ import (
 // the loop body: a variable declared outside the loop is shared by all
 // channels, and each later accept rewrites what the earlier channels report.
 // (Added after seed C19-m2: the loop locals were hoisted in front of the loop.)
-func c19R3(c *Ctx) {
+func c19R3(c *Ctx, rule string, onlyField string) {
 	r := c.R
-	accept := c.mustFunc("C19.R3", "", "SCTPTransport.acceptDataChannels")
-	newDC := c.mustFunc("C19.R3", "", "API.newDataChannel")
+	accept := c.mustFunc(rule, "", "SCTPTransport.acceptDataChannels")
+	newDC := c.mustFunc(rule, "", "API.newDataChannel")
 	params := c.P.Named("", "DataChannelParameters")
 	if accept == nil || newDC == nil || params == nil {
 		if params == nil {
-			r.Fail("C19.R3", "anchor:DataChannelParameters", "-", "type no longer resolves")
+			r.Fail(rule, "anchor:DataChannelParameters", "-", "type no longer resolves")
 		}
 		return
 	}
@@ -58,7 +58,7 @@ func c19R3(c *Ctx) {
 		return true
 	})
 	if call == nil || loop == nil {
-		r.Undecided("C19.R3", "acceptDataChannels|construction-loop", pos, "no loop calling newDataChannel found")
+		r.Undecided(rule, "acceptDataChannels|construction-loop", pos, "no loop calling newDataChannel found")
 		return
 	}
 	var body *ast.BlockStmt
@@ -79,7 +79,7 @@ func c19R3(c *Ctx) {
 		})
 	}
 	if lit == nil {
-		r.Undecided("C19.R3", "acceptDataChannels|parameters-literal", c.P.Pos(call.Pos()), "newDataChannel is not called with a DataChannelParameters literal")
+		r.Undecided(rule, "acceptDataChannels|parameters-literal", c.P.Pos(call.Pos()), "newDataChannel is not called with a DataChannelParameters literal")
 		return
 	}
 	// Where does a pointer stored in the literal come from? Directly `&x`, through a local pointer variable
@@ -103,7 +103,7 @@ func c19R3(c *Ctx) {
 	judgeVar := func(sc scope, field string, v *types.Var, at token.Pos) {
 		n++
 		inside := v.Pos() >= sc.lo && v.Pos() <= sc.hi
-		r.Check(inside, "C19.R3", "acceptDataChannels|"+field+"|points-to-per-channel-variable", c.P.Pos(at),
+		r.Check(inside, rule, "acceptDataChannels|"+field+"|points-to-per-channel-variable", c.P.Pos(at),
 			"&"+v.Name()+" is a variable of "+sc.what+" (fresh for every accepted channel)",
 			"the channel keeps a pointer to `"+v.Name()+"`, which is declared outside "+sc.what+": every channel created in-band shares it, so a later accept rewrites the "+field+" that earlier channels report")
 	}
@@ -121,7 +121,7 @@ func c19R3(c *Ctx) {
 				return // &T{...}: a fresh allocation
 			}
 			n++
-			r.Undecided("C19.R3", "acceptDataChannels|"+field+"|points-to-per-channel-variable", c.P.Pos(e.Pos()), "the address of "+exprStr(u.X)+" is stored in the channel; cannot decide whether it is per-channel storage")
+			r.Undecided(rule, "acceptDataChannels|"+field+"|points-to-per-channel-variable", c.P.Pos(e.Pos()), "the address of "+exprStr(u.X)+" is stored in the channel; cannot decide whether it is per-channel storage")
 			return
 		}
 		if call, ok := e.(*ast.CallExpr); ok {
@@ -142,7 +142,7 @@ func c19R3(c *Ctx) {
 		if sc.fd != accept.Decl && sc.fd.Type.Params != nil && pv.Pos() >= sc.fd.Type.Params.Pos() && pv.Pos() <= sc.fd.Type.Params.End() {
 			// a helper handing back a pointer it was given: the caller's argument decides, and it is not tracked
 			n++
-			r.Undecided("C19.R3", "acceptDataChannels|"+field+"|points-to-per-channel-variable", c.P.Pos(e.Pos()), "the helper returns its pointer parameter `"+pv.Name()+"`; whether that is per-channel storage depends on the caller's argument")
+			r.Undecided(rule, "acceptDataChannels|"+field+"|points-to-per-channel-variable", c.P.Pos(e.Pos()), "the helper returns its pointer parameter `"+pv.Name()+"`; whether that is per-channel storage depends on the caller's argument")
 			return
 		}
 		// every assignment to pv in the function
@@ -169,7 +169,7 @@ func c19R3(c *Ctx) {
 		// the pointer variable itself must be per-channel too (else a stale pointer of the previous channel survives)
 		n++
 		inside := pv.Pos() >= sc.lo && pv.Pos() <= sc.hi
-		r.Check(inside, "C19.R3", "acceptDataChannels|"+field+"|pointer-variable-per-channel", c.P.Pos(e.Pos()),
+		r.Check(inside, rule, "acceptDataChannels|"+field+"|pointer-variable-per-channel", c.P.Pos(e.Pos()),
 			pv.Name()+" is declared in "+sc.what+" (starts nil for every channel)",
 			"`"+pv.Name()+"` is declared outside "+sc.what+": a channel type that does not set it inherits the previous channel's pointer")
 	}
@@ -184,7 +184,7 @@ func c19R3(c *Ctx) {
 				}
 				if _, isPtr := t.Underlying().(*types.Pointer); isPtr && fn != nil {
 					n++
-					r.Undecided("C19.R3", "acceptDataChannels|"+field+"|points-to-per-channel-variable", c.P.Pos(call.Pos()), "the pointer comes from "+core.FuncName(fn)+", which is not followed (outside the module or nested too deep)")
+					r.Undecided(rule, "acceptDataChannels|"+field+"|points-to-per-channel-variable", c.P.Pos(call.Pos()), "the pointer comes from "+core.FuncName(fn)+", which is not followed (outside the module or nested too deep)")
 				}
 			}
 			return
@@ -230,9 +230,12 @@ func c19R3(c *Ctx) {
 				continue
 			}
 		}
+		if onlyField != "" && exprStr(kv.Key) != onlyField {
+			continue
+		}
 		origin(loopScope, exprStr(kv.Key), kv.Value, 0)
 	}
 	if n == 0 {
-		r.Undecided("C19.R3", "acceptDataChannels|pointer-parameters", c.P.Pos(lit.Pos()), "no pointer-valued parameter found in the literal")
+		r.Undecided(rule, "acceptDataChannels|pointer-parameters", c.P.Pos(lit.Pos()), "no pointer-valued parameter found in the literal")
 	}
 }
